@@ -310,6 +310,46 @@ impl Iterator for Scripted {
 }
 impl DoubleEndedIterator for Scripted { fn next_back(&mut self) -> Option<usize> { self.back.pop_front().flatten() } }
 
+/// a scripted stream: each poll consumes one script entry (`None` = `Pending`, `Some(x)` = `Ready(x)`), `Ready(None)` once exhausted
+struct ScriptedStream { script: std::collections::VecDeque<Option<Option<usize>>> }
+impl futures_core::Stream for ScriptedStream {
+    type Item = usize;
+    fn poll_next(mut self: Pin<&mut Self>, _cx: &mut Context<'_>) -> Poll<Option<usize>> {
+        match self.script.pop_front() { None => Poll::Ready(None), Some(None) => Poll::Pending, Some(Some(x)) => Poll::Ready(x) }
+    }
+}
+
+fn stream_model_case(rng: &mut Rng, out: &mut Out) {
+    use futures_core::Stream;
+    let script: std::collections::VecDeque<Option<Option<usize>>> = (0..rng.below(9)).map(|_| match rng.below(6) { 0 | 1 => None, 2 => Some(None), _ => Some(Some(rng.below(50) as usize)) }).collect();
+    let len: Option<u64> = match rng.below(3) { 0 => None, 1 => Some(0), _ => Some(rng.below(30)) };
+    let fin = rng.below(5);
+    let finish = match fin { 0 => ProgressFinish::AndLeave, 1 => ProgressFinish::AndClear, 2 => ProgressFinish::WithMessage("done".into()), 3 => ProgressFinish::Abandon, _ => ProgressFinish::AbandonWithMessage("stop".into()) };
+    let pos0: u64 = *rng.pick(&[0u64, 0, 2, u64::MAX]);
+    let polls = rng.below(14) as usize;
+    let enc = if script.is_empty() { "-".to_string() } else { script.iter().map(|e| match e { None => "P".to_string(), Some(None) => "_".to_string(), Some(Some(v)) => v.to_string() }).collect::<Vec<_>>().join(",") };
+    let case = format!("ITERS {} {} {pos0} {enc} {polls}", len.map_or("none".to_string(), |l| l.to_string()), (fin <= 2) as u8);
+    let pb = match len { Some(l) => ProgressBar::with_draw_target(Some(l), ProgressDrawTarget::hidden()), None => ProgressBar::with_draw_target(None, ProgressDrawTarget::hidden()) }.with_finish(finish).with_position(pos0);
+    let mut bare = ScriptedStream { script: script.clone() };
+    let mut w = pb.wrap_stream(ScriptedStream { script });
+    let waker = Waker::noop(); let mut cx = Context::from_waker(&waker);
+    let (mut obs, mut verdict) = (Vec::new(), String::from("ok"));
+    let (mut items, mut ended) = (0u64, false);
+    let show = |p: Poll<Option<usize>>| match p { Poll::Pending => "pending".to_string(), Poll::Ready(None) => "none".to_string(), Poll::Ready(Some(v)) => format!("some:{v}") };
+    for i in 0..polls {
+        let before = (pb.position(), pb.is_finished());
+        let (a, b) = (show(Pin::new(&mut w).poll_next(&mut cx)), show(Pin::new(&mut bare).poll_next(&mut cx)));
+        if a != b && verdict == "ok" { verdict = format!("FAIL not-transparent poll {i}: wrapped {a}, bare {b}"); }
+        if a == "pending" && (pb.position(), pb.is_finished()) != before && verdict == "ok" { verdict = format!("FAIL miscount poll {i}: a Pending poll changed the bar"); }
+        if a.starts_with("some") && !ended { items += 1; }
+        if a == "none" { ended = true; }
+        if !ended && pb.position() != pos0.wrapping_add(items) && verdict == "ok" { verdict = format!("FAIL miscount poll {i}: position {} after {items} items from {pos0}", pb.position()); }
+        if pb.is_finished() != ended && verdict == "ok" { verdict = format!("FAIL finish poll {i}: finished={} but end-of-stream seen={ended}", pb.is_finished()); }
+        obs.push(format!("{a}@{}:{}", pb.position(), pb.is_finished() as u8));
+    }
+    out.emit(&case, &format!("{} ORACLE {verdict}", obs.join(" ")));
+}
+
 /// C17I: a fixed sequence of `next` / `next_back` / `size_hint` calls on a wrapped scripted iterator; observation = every answer
 /// with the bar's position and finished flag after it (compared with the Lean model `IterWrap.trace`), oracle = same answers as
 /// the bare iterator, position = items handed out until the first `None`, finished exactly from the first `None` on
@@ -348,6 +388,7 @@ pub fn run_iter_model(seed: u64, tier: &str, out: &mut Out) {
         }
         out.emit(&case, &format!("{} ORACLE {verdict}", obs.join(" ")));
     }
+    for _ in 0..n / 3 { stream_model_case(&mut rng, out); }
 }
 
 pub fn run(seed: u64, tier: &str, out: &mut Out) {
